@@ -529,6 +529,44 @@ def install(M):
     reg('char::methods::<impl char>::is_ascii_punctuation', ascii_pred([(0x21, 0x2f), (0x3a, 0x40), (0x5b, 0x60), (0x7b, 0x7e)]))
     reg('char::methods::<impl char>::is_ascii_control', ascii_pred([(0, 0x1f), (0x7f, 0x7f)]))
 
+    def u8_pred(lo_hi_list):
+        from values import MByte
+
+        def f(I, c):
+            c = deref(c)
+            if isinstance(c, MByte):
+                return False          # a byte of a multi-byte character is >= 0x80
+            return v_or(*[v_and(v_le(lo, c), v_le(c, hi)) for lo, hi in lo_hi_list])
+        return f
+    reg('core::num::<impl u8>::is_ascii', u8_pred([(0, 0x7f)]))
+    reg('core::num::<impl u8>::is_ascii_digit', u8_pred([(0x30, 0x39)]))
+    reg('core::num::<impl u8>::is_ascii_alphabetic', u8_pred([(0x41, 0x5a), (0x61, 0x7a)]))
+    reg('core::num::<impl u8>::is_ascii_alphanumeric', u8_pred([(0x30, 0x39), (0x41, 0x5a), (0x61, 0x7a)]))
+    reg('core::num::<impl u8>::is_ascii_whitespace', u8_pred([(9, 10), (12, 13), (32, 32)]))
+    reg('core::num::<impl u8>::is_ascii_punctuation', u8_pred([(0x21, 0x2f), (0x3a, 0x40), (0x5b, 0x60), (0x7b, 0x7e)]))
+    reg('core::num::<impl u8>::is_ascii_control', u8_pred([(0, 0x1f), (0x7f, 0x7f)]))
+    reg('core::num::<impl u8>::is_ascii_graphic', u8_pred([(0x21, 0x7e)]))
+    reg('char::methods::<impl char>::is_ascii_graphic', ascii_pred([(0x21, 0x7e)]))
+    reg('char::methods::<impl char>::is_control', ascii_pred([(0, 0x1f), (0x7f, 0x9f)]))
+
+    def s_concat(I, s):
+        l, a, b = as_list(s)
+        out = []
+        for e in l[a:b]:
+            out.extend(as_str(e).chars())
+        return OString(out)
+    pat(r'^(alloc::)?slice::<impl \[.*\]>::concat$', s_concat)
+
+    def s_join(I, s, sep):
+        l, a, b = as_list(s)
+        out = []
+        for k, e in enumerate(l[a:b]):
+            if k:
+                out.extend(as_str(sep).chars())
+            out.extend(as_str(e).chars())
+        return OString(out)
+    pat(r'^(alloc::)?slice::<impl \[.*\]>::join$', s_join)
+
     # ---------------- mem
     def mem_replace(I, p, v):
         old = p.get()
